@@ -14,17 +14,25 @@ def driver_args(tier, seed, phase):
 RULE = ("hand-written catalogue (the 7 programs of sequence_test.go, matcher short-circuit/negation/error orders, "
         "accept/reject/return/goto/errors below 1-2 levels of jump, wrappers running their continuation 0/1/2 times "
         "in place, on copies and concurrently incl. with pending jump returns, sequences used as plain actions ($seq) with "
-        "failing matchers/actions inside at depth 1-3, below jump/goto and under wrappers, reject rcode bounds, self/forward "
+        "failing matchers/actions inside at depth 1-3, below jump/goto and under wrappers, return through exhausted callers "
+        "(2-3 levels of jumps that are the LAST rule of the middle sequences, also under wrappers, below goto and in $seq "
+        "callees), wrappers that KEEP their continuation and run it once/twice after the top-level Exec has returned and "
+        "an unrelated jump-heavy program has run in between (on copies of the kept context or on it), reject rcode bounds, "
+        "self/forward "
         "references, name shadowing), each in 3 seeded renderings (failing plugins return: their plain marker error / an "
         "error of the context.Canceled family / a value drawn from the menu), + seeded random programs (1-4 sequences, "
         "0-5 rules, 0-3 matchers from a 18-symbol alphabet incl. response-dependent and failing ones, all 8 action kinds "
         "incl. $seq calls, the error VALUE of every failing plugin drawn per run from a 15-entry menu: marker type, "
         "errors.New, context.Canceled, context.DeadlineExceeded, io.EOF, single and double %w wrappings, a custom type with "
-        "Is/Unwrap, errors.Join; the returned error is identified through wrapping with the plugin that made it, "
+        "Is/Unwrap, errors.Join; the returned error is identified through wrapping with the plugin that made it; every 4th random "
+        "case is a 'chain' program main -> mid.. -> inner with tail jumps, an executed explicit return innermost, rules "
+        "behind the outermost jump, wrappers incl. keeping ones at any level, goto/$seq at a middle level; 1/4 of random "
+        "wrappers keep their continuation; a worker process that dies on a case (fatal stack overflow) is reported as "
+        "that case observed with error 9999, "
         "$tag / quick-setup type / quick-configured forms, surplus blanks) of which 1/12 carry one injected build defect, "
         "all loaded from rule text by sequence.NewSequence and executed; + parseMatch/parseExec on fixed and random "
         "ASCII strings. Non-trivial: the executed program has a return/goto inside a jumped or gone-to sequence or a "
-        "wrapper running its continuation twice (return/goto inside a $seq callee counts); rule text with '!' or surplus blanks; distinct = distinct Gallina literal")
+        "wrapper running its continuation twice or keeping it for later (return/goto inside a $seq callee counts); rule text with '!' or surplus blanks; distinct = distinct Gallina literal")
 ASSUMPTIONS = [
     "a wrapping plugin uses its continuation only by running it (wrappers_extensional; proved for the harness wrappers)",
     "plugins are deterministic functions of the query context as far as the sequence is concerned (oracles match_o/exec_o/wrap_o)",
@@ -44,10 +52,13 @@ LEVEL_TEXT = ("Theorems in coq/Properties/C06.v for every program tree (any numb
               "transcribed from ChainWalker.ExecNext and the built-in actions computes exactly the trace, context and error of "
               "the big-step reading of the property (rules in order, matchers left to right with '!', accept/reject stop, "
               "return, jump, goto, sequences used as plain actions, errors); one theorem per clause stated on the machine for an arbitrary jump-back stack; the "
-              "continuation given to a wrapper is the walker on the remaining rules plus pending jump returns, and n runs on "
-              "copies give n identical sub-traces; parse(render) round-trip for rule text with arbitrary blanks. The model is run "
+              "continuation given to a wrapper is the walker on the remaining rules plus pending jump returns, n runs on copies give n identical sub-traces, and a "
+              "continuation that is kept and run later (after the jump that was on the stack has returned) does exactly what "
+              "the run in place does; parse(render) round-trip for rule text with arbitrary blanks. The model is run "
               "inside Coq on every program the Go driver loaded from rule text with the real sequence.NewSequence and executed "
               "with recording plugins (Judge.C06.agree: machine, Judge.C06.spec: big-step interpreter).")
 LEVEL_NOTE = ("Trusted: Coq kernel + vm_compute; hand-written model tied to the code by the differential run; wrappers assumed "
               "extensional (proved for the harness family); YAML decoding of the rule list (mapstructure) is outside; real "
-              "concurrency of continuation runs is exercised by the driver (wrapper mode 2), not modelled. No axioms.")
+              "concurrency of continuation runs is exercised by the driver (wrapper mode 2), not modelled; late runs of kept continuations "
+              "(wrappers 18-21) are made by the driver after the top-level Exec and an interfering program, and predicted by "
+              "the model at the moment the continuation is kept. No axioms.")
